@@ -34,7 +34,7 @@ func (p *c36) Case(i int) fw.Case {
 	return fw.Case{Kind: "history", P: map[string]string{"n": fmt.Sprint(40 + i%81)}}
 }
 
-var c36Names = []string{"a.go", "b.go", "m.xgo", "n.gop", "k.gox", "_x.go", "_y.xgo", "README", "notes.txt", "c.md", "data.json", "a.go.bak", "z.GO", "go.sum", "t_test.go", ".hidden.go"}
+var c36Names = []string{"a.go", "b.go", "m.xgo", "n.gop", "k.gox", "_x.go", "_y.xgo", "README", "notes.txt", "c.md", "data.json", "a.go.bak", "z.GO", "go.sum", "t_test.go", ".hidden.go", "round_rect.gox", "my_lib.xgo", "a_b.go", "x_test.gox"}
 
 func c36Compilable(name string) bool {
 	if strings.HasPrefix(name, "_") {
